@@ -196,3 +196,28 @@ pub unsafe fn retype<F: Copy>(_like: &F, w: usize) -> F {
     assert_eq!(std::mem::size_of::<F>(), std::mem::size_of::<usize>());
     std::mem::transmute_copy(&w)
 }
+
+/// The object as a C caller sees it: a sequence of machine words.
+pub fn words_of<T>(t: &T) -> Vec<usize> {
+    let n = std::mem::size_of_val(t) / std::mem::size_of::<usize>();
+    assert_eq!(std::mem::size_of_val(t) % std::mem::size_of::<usize>(), 0);
+    unsafe { std::slice::from_raw_parts(t as *const T as *const usize, n) }.to_vec()
+}
+
+/// `vtbl->slot0(container)` for a vtable whose first entry is `extern "C" fn(&Cont) -> u64`.
+///
+/// # Safety
+/// `vtbl_word` must point to such a vtable and `cont` to its container.
+pub unsafe fn call_slot0(vtbl_word: usize, cont: *const std::ffi::c_void) -> u64 {
+    let f: extern "C" fn(*const std::ffi::c_void) -> u64 = std::mem::transmute(*(vtbl_word as *const usize));
+    f(cont)
+}
+
+/// Same for `extern "C" fn(&Cont, usize-or-u64) -> u64`.
+///
+/// # Safety
+/// see `call_slot0`.
+pub unsafe fn call_slot0_arg(vtbl_word: usize, cont: *const std::ffi::c_void, a: u64) -> u64 {
+    let f: extern "C" fn(*const std::ffi::c_void, u64) -> u64 = std::mem::transmute(*(vtbl_word as *const usize));
+    f(cont, a)
+}
